@@ -56,6 +56,11 @@ var Known = []ResourceInfo{
 	{"", "v1", "namespaces", "Namespace", false},
 	{"batch", "v1", "jobs", "Job", true},
 	{"apps", "v1", "deployments", "Deployment", true},
+	{"apps", "v1", "daemonsets", "DaemonSet", true},
+	{"apps", "v1", "statefulsets", "StatefulSet", true},
+	{"apps", "v1", "replicasets", "ReplicaSet", true},
+	{"", "v1", "replicationcontrollers", "ReplicationController", true},
+	{"", "v1", "persistentvolumeclaims", "PersistentVolumeClaim", true},
 	{"verif.example", "v1", "widgets", "Widget", true},
 	{"verif.example", "v2", "widgets", "Widget", true},
 	{"verif.example", "v1", "gadgets", "Gadget", false}, // a cluster-scoped custom kind
